@@ -324,8 +324,12 @@ def create_for_folder_subcommand(
 
     if detect_renaming:
         found_file_paths = set()
-        for new_path in new_paths:
-            for not_found_path in not_found_paths:
+        # in a fixed order, and every missing path stands for one new path at most: otherwise the result depends on
+        # the order in which the sets happen to be iterated as soon as two files have the same content
+        for new_path in sorted(new_paths):
+            for not_found_path in sorted(not_found_paths):
+                if not_found_path in found_file_paths:
+                    continue
                 # a file does not turn into a folder by being renamed (or the other way round), the digests of
                 # an empty file and of an empty folder are the same though
                 if os.path.isdir(new_path) != existing_history.is_recorded_as_directory(not_found_path):
@@ -373,6 +377,7 @@ def create_for_folder_subcommand(
                                 missing_asc_mhl_folder.discard(not_found_path)
                                 missing_asc_mhl_folder.add(new_path)
                         found_file_paths.add(not_found_path)
+                        break
                 elif not os.path.isdir(new_path):
                     # only files can be hashed again in the format of the missing path,
                     # a new folder without a directory hash in that format cannot be compared
@@ -390,6 +395,7 @@ def create_for_folder_subcommand(
                             )
                         new_path_media_hash.previous_path = relative_not_found_path
                         found_file_paths.add(not_found_path)
+                        break
         not_found_paths = not_found_paths - found_file_paths
     commit_session(session, author_name, author_email, author_phone, author_role, location, comment)
 
